@@ -625,8 +625,11 @@ def _srcgen_stream():
     def grammar_sources(draw):
         env = draw(st.sampled_from(["default", "ext", "async"]))
         o = {"extensions": list(srcgen.ENVS[env].get("extensions", [])), "async": env == "async", "autoescape": False, "newstyle": False}
-        o["extensions"] = [e for e in o["extensions"] if e != "jinja2.ext.debug"] + (["jinja2.ext.debug"] if env == "ext" else [])
-        return [{"source": draw(f(env)), "env": o}]
+        src = draw(f(env))
+        # sources outside C01's decided domain (CPython nesting limits F2, unbounded constant folding F19) are dropped
+        if srcgen.excluded_reason(srcgen.measure(src, env)) is not None:
+            return []
+        return [{"source": src, "env": o}]
 
     return grammar_sources()
 
